@@ -67,3 +67,48 @@ class MathStub:
         self.exps.append((x, y))
         self.calls.append(("exp", x, y))
         return y
+
+
+class ProxyMath:
+    """`math` for modules whose arithmetic must run on proxies: functions that are exact over the reals are
+    given their mathematical definition; everything else falls back to the real module for plain numbers
+    and fails loudly for proxies."""
+
+    def __getattr__(self, name):
+        real = getattr(math, name)
+        if not callable(real):
+            return real
+
+        def f(*a, **k):
+            if any(is_sym(x) for x in a) or any(is_sym(x) for x in k.values()):
+                raise TypeError(f"math.{name} on a symbolic value is not modelled")
+            return real(*a, **k)
+        return f
+
+    floor = staticmethod(math.floor)
+    ceil = staticmethod(math.ceil)
+    trunc = staticmethod(math.trunc)
+
+    @staticmethod
+    def fabs(x):
+        return abs(x) if is_sym(x) else math.fabs(x)
+
+    @staticmethod
+    def isclose(a, b, *, rel_tol=1e-09, abs_tol=0.0):
+        if not (is_sym(a) or is_sym(b)):
+            return math.isclose(a, b, rel_tol=rel_tol, abs_tol=abs_tol)
+        diff = abs(a - b)
+        aa, ab = abs(a), abs(b)
+        return sor(a == b, diff <= rel_tol * aa, diff <= rel_tol * ab, diff <= abs_tol)
+
+    @staticmethod
+    def isnan(x):
+        return False if is_sym(x) else math.isnan(x)
+
+    @staticmethod
+    def isinf(x):
+        return False if is_sym(x) else math.isinf(x)
+
+    @staticmethod
+    def isfinite(x):
+        return True if is_sym(x) else math.isfinite(x)
